@@ -278,7 +278,9 @@ def textbook(case, over=None):
             return -math.inf, 0.0
         L = 3 * lw + math.log(N) - lv + (-c["mu"] - dE) / kT
     else:  # composite exchange: V^d N!/(N+d)! Lambda^(-3d) exp((d mu - dE)/kT)
-        L = d * lv + math.lgamma(N + 1) - math.lgamma(N + d + 1) - 3 * d * lw + (d * c["mu"] - dE) / kT
+        # log(N!/(N+d)!) term by term (a difference of two lgamma values loses every digit at large N)
+        lf = -sum(math.log(N + i) for i in range(1, d + 1)) if d > 0 else sum(math.log(N - i) for i in range(-d))
+        L = d * lv + lf - 3 * d * lw + (d * c["mu"] - dE) / kT
     scale = (abs(d * c["mu"]) + abs(m["E"]) + abs(c["E0"])) / kT + abs(d) * (abs(lv) + 3 * abs(lw)) + 20
     return L, scale
 
@@ -430,6 +432,9 @@ def gen_case(rng, kind):
             c["stresstype"] = st
     if kind == "gc":
         c["N"] = rng.choice([0, 1, 2, 3, 5, 10, 50, 100, 500]) if rng.random() < 0.7 else rng.randint(0, 500)
+        if rng.random() < 0.1:
+            # the reservoir counter is a free integer: N!/(N+delta)! is a ratio of a few factors however large N is
+            c["N"] = rng.choice([10**6, 10**9, 10**12, 10**15, 2**53 + 5, 10**18])
         c["delta"] = rng.choice([1, 1, 1, -1, -1, -1, 2, -2])
         c["species"] = rng.choice(SPECIES) if rng.random() < 0.95 else "none"
         c["mu"] = 0.0 if rng.random() < 0.1 else float(rng.choice([1, -1]) * logu(rng, -3, 1.3))
@@ -645,7 +650,10 @@ class Setters(common.Suite):
         from quansino.operations.cell import IsotropicDeformation
 
         kind = case["kind"]
-        atoms = make_atoms(case, case["cell0"])
+        pre_edit = kind in ("npt", "nst") and int(round(abs(case["E0"]) * 1e6)) % 5 < 2
+        # pre_edit: the simulation is BUILT on another cell; the user rescales it to cell0 afterwards and the run starts
+        # (validate_simulation): the reference cell — and every quantity derived from it — is the one the run starts from
+        atoms = make_atoms(case, [x * 1.07 for x in case["cell0"]] if pre_edit else case["cell0"])
         atoms.calc = E["Calc"](case["E"])
         dm = DisplacementMove(np.arange(len(atoms)))
         if kind == "can":
@@ -676,6 +684,9 @@ class Setters(common.Suite):
             mc.accessible_volume = case["Vacc"]
             crit = mc.moves["default_exchange_move"].criteria
             mc.context.particle_delta = case["delta"]
+        if pre_edit:
+            atoms.set_cell(np.array(case["cell0"]).reshape(3, 3), scale_atoms=True)
+            mc.validate_simulation()
         rng = Scripted()
         mc.context.rng = rng
         mc.context.last_potential_energy = case["E0"]
